@@ -19,7 +19,7 @@ RULE = ("a case is a typed list or dict field (item/key/value families with conc
         ">= 1 mutation; distinct = distinct (field, history)")
 REQUIRED = ("config_item_lists", "ops_compared", "list_ops_compared", "dict_ops_compared", "typed_result_probes", "op:setslice", "op:ior",
             "op:setdefault", "op:update", "op:extend", "op:iadd", "iter:iter", "iter:proxy_other", "iter:mapping",
-            "update:proxy_same+kwargs", "update:proxy_other+kwargs", "update:pairs+kwargs")
+            "update:proxy_same+kwargs", "update:proxy_other+kwargs", "update:pairs+kwargs", "iter:gen_dedup", "iter:multimap")
 ASSUMPTIONS = ["operations the builtin rejects are skipped; operations with an argument the model labels invalid "
                "must raise and are followed by a resynchronisation of the model (partial application of multi-element "
                "operations is not part of this property)"]
@@ -100,6 +100,10 @@ def generate(rng, ctx):
                 op["i"] = rng.randrange(-4, 6)
             if name in ("extend", "iadd", "add", "setslice"):
                 op["it"] = _iterable(rng, item, kinds, bad)
+                if name in ("extend", "iadd") and not cfg_items and rng.random() < 0.2:
+                    # a lazy argument that looks at the list while it is being extended (the builtin consumes it item by item)
+                    vs = [v for v in _vals(rng, item, 3, 0.0)]
+                    op["it"] = {"kind": "gen_dedup", "vals": vs + vs[:2] + vs[:1]}
             if name in ("setslice", "delslice"):
                 op["a"], op["b"] = rng.choice([None, 0, 1, 2, -1]), rng.choice([None, 0, 1, 3, -1])
                 op["c"] = rng.choice([None, None, None, 1, 2, -1])
@@ -114,7 +118,8 @@ def generate(rng, ctx):
         vf = _mkfield(rng, rng.choice(ITEM_FAMS)) if rng.random() < 0.9 or kf is None else None
         f = {"kind": "field", "key": "c", "family": "dict", "params": {}, "keyf": kf, "valf": vf}
         kinds = ["dict", "pairs", "pairs_iter", "kwargs", "dict+kwargs", "none", "proxy_same", "proxy_other", "mapping",
-                 "pairs_tuple", "proxy_same+kwargs", "proxy_other+kwargs", "pairs+kwargs", "mapping+kwargs", "pairs_iter+kwargs"]
+                 "pairs_tuple", "proxy_same+kwargs", "proxy_other+kwargs", "pairs+kwargs", "mapping+kwargs", "pairs_iter+kwargs",
+                 "multimap"]
         ops = []
 
         def pairs(n):
@@ -133,6 +138,10 @@ def generate(rng, ctx):
             if name in ("update", "ior", "or"):
                 k = rng.choice(kinds if name == "update" else ["dict", "pairs", "mapping", "proxy_same", "proxy_other"])
                 op["it"] = {"kind": k, "pairs": pairs(rng.choice([0, 1, 2, 3]))}
+                if k == "multimap":
+                    # a multi-valued mapping (like e-mail headers): one name twice with different values
+                    ps = pairs(3)
+                    op["it"]["pairs"] = ps + [[ps[0][0], ps[1][1]], [ps[2][0], ps[0][1]]]
             ops.append(op)
         init = pairs(rng.choice([0, 1, 3]))
     return {"field": f, "init": init, "ops": ops}
@@ -435,8 +444,22 @@ def _list_op(cc, cfg, f, proxy, ref, op, res):
         if unk:
             return None
         trial = list(ref)
+        if it["kind"] == "gen_dedup":
+            if not allok or _has_nan(norms) or _has_nan(ref):
+                return None
+            real = [spec.realize(cc, v) for v in vals]
+            try:
+                for rv, nv in zip(real, norms):
+                    if rv not in trial:
+                        trial.append(nv)
+            except Exception:
+                return None
+            arg = (rv for rv in real if rv not in proxy)
+            res.count("iter:gen_dedup")
         try:
-            if name == "setslice":
+            if it["kind"] == "gen_dedup":
+                pass
+            elif name == "setslice":
                 trial[slice(op["a"], op["b"], op["c"])] = list(norms)
             else:
                 trial.extend(norms)
@@ -567,6 +590,8 @@ def _dict_arg(cc, cfg, f, it):
         return iter([tuple(p) for p in pairs])
     if kind == "mapping":
         return types.MappingProxyType(dict(pairs))
+    if kind == "multimap":
+        return MultiMap(pairs)
     if kind == "proxy_same":
         return type(cfg.c)(cfg, _field(cfg, "c"), dict(pairs))
     if kind == "proxy_other":
@@ -575,9 +600,46 @@ def _dict_arg(cc, cfg, f, it):
     raise ValueError(kind)
 
 
+class MultiMap:
+    """A mapping with repeated names: keys() lists every occurrence, m[name] is the FIRST value, items() lists all
+    pairs.  dict.update(m) reads it through keys() and m[name]."""
+
+    def __init__(self, pairs):
+        self._pairs = list(pairs)
+
+    def keys(self):
+        return [k for k, _ in self._pairs]
+
+    def __getitem__(self, key):
+        for k, v in self._pairs:
+            if k == key:
+                return v
+        raise KeyError(key)
+
+    def items(self):
+        return list(self._pairs)
+
+    def values(self):
+        return [v for _, v in self._pairs]
+
+    def __iter__(self):
+        return iter(self.keys())
+
+    def __len__(self):
+        return len(self._pairs)
+
+    def __contains__(self, key):
+        return any(k == key for k, _ in self._pairs)
+
+
 def _dict_plan(cc, kind, pairs):
     """Raw (key, value) pairs in the order the proxy gets to see them for this argument kind."""
     real = [(spec.realize(cc, k), v) for k, v in pairs]
+    if kind == "multimap":
+        first = {}
+        for k, v in real:
+            first.setdefault(k, v)
+        return [(k, first[k]) for k, _v in real]
     if kind in ("pairs", "pairs_tuple", "pairs_iter"):
         return real
     if kind == "none":
